@@ -539,6 +539,42 @@ fn run(ctx: &mut Ctx) {
         }
         ctx.par_sweep("after-errors", cases.into_par_iter(), |c| check_case(&c));
     }
+    // trivia inside the innermost datum of a nest that is as deep as the reader
+    // accepts (measured on this tree): `()` and `( )`, `#()` and `#( ;c\n)`, ...
+    // read alike, through the value and the datum API, and the four ways agree
+    {
+        let limit = (1..=400usize).take_while(|d| lexpr::from_str(&format!("{}0{}", "(".repeat(*d), ")".repeat(*d))).is_ok()).last().unwrap_or(1);
+        let pairs = [("()", "( )"), ("()", "(;c\n)"), ("()", "(\t\n)"), ("#()", "#( )"), ("#()", "#(;c\n )"), ("#u8()", "#u8( )"), ("#u8(1)", "#u8( 1 )"), ("(a)", "( a )"), ("(a . b)", "( a . b )"), ("a", " a "), ("\"s\"", " \"s\" "), ("'()", "' ( )"), ("'a", "' a")];
+        for (tight, loose) in pairs {
+            for depth in limit.saturating_sub(3)..=limit + 1 {
+                for (open, close) in [("(", ")"), ("#(", ")"), ("(x ", ")")] {
+                    let wrap = |inner: &str| format!("{}{}{}", open.repeat(depth), inner, close.repeat(depth));
+                    let (a, b) = (wrap(tight), wrap(loose));
+                    let rv = |t: &str| lexpr::from_str(t).map(|v| MV::from_value(&v)).map_err(|e| err_text(&e));
+                    let rd = |t: &str| lexpr::datum::from_str(t).map(|d| MV::from_value(d.value())).map_err(|e| err_text(&e));
+                    let r = catch(|| (rv(&a), rv(&b), rd(&a), rd(&b)));
+                    let res: CaseResult = match r {
+                        Err(pm) => Err(Failure::new(format!("C12 near-limit-trivia panic={}", panic_sig(&pm)), pm, json!({"case": Case::Iter { input: b.clone().into_bytes(), q: 0 }}))),
+                        Ok((va, vb, da, db)) => {
+                            if va != vb || da != db || va != da {
+                                Err(Failure::new(
+                                    format!("C12 near-limit-trivia inner={} differs={}", tight, if va != vb { "value-api" } else if da != db { "datum-api" } else { "value-vs-datum" }),
+                                    format!("{} levels of {:?} around {:?} and around {:?} read differently: value API {} / {}, datum API {} / {}", depth, open, tight, loose, short(&va), short(&vb), short(&da), short(&db)),
+                                    json!({"case": Case::Iter { input: b.clone().into_bytes(), q: 0 }}),
+                                ))
+                            } else {
+                                Ok(Eval::new(true, digest_of(&(tight, loose, depth, open))).class("near-limit-trivia"))
+                            }
+                        }
+                    };
+                    ctx.observe("near-limit-trivia", res);
+                    // and the four ways of iterating on the loose spelling
+                    ctx.observe("near-limit-trivia", check_case(&Case::Iter { input: b.into_bytes(), q: 0 }));
+                }
+            }
+        }
+        ctx.flush_failures();
+    }
     // long streams, in child processes on a 2 MiB stack: hundreds of thousands
     // of comment lines, blank bytes or complete datums in one stream; every
     // datum comes out, in order, and then the end (a reader that pays stack or
